@@ -61,20 +61,30 @@ func (g *scopeGen) visible() []string {
 }
 
 func (g *scopeGen) observe() {
-	vs := g.visible()
+	// innermost names first: when the cap below cuts the list it cuts outer names, never the bindings of the scope
+	// the observation site sits in
+	seen := map[string]bool{}
 	var args []string
-	for _, v := range vs {
-		args = append(args, v)
+	for i := len(g.stack) - 1; i >= 0; i-- {
+		names := append([]string{}, g.stack[i]...)
+		sort.Strings(names)
+		for _, n := range names {
+			if !seen[n] {
+				seen[n] = true
+				args = append(args, n)
+			}
+		}
 	}
+	if len(args) > 12 {
+		args = args[:12]
+	}
+	vs := g.visible()
 	// free globals named like generated names, read from inside
 	for k := 0; k < 2; k++ {
 		fg := g.r.Pick(renamerNames)
 		if !contains(vs, fg) && fg != "h" {
 			args = append(args, "typeof "+fg+"!=\"undefined\"&&"+fg)
 		}
-	}
-	if len(args) > 10 {
-		args = args[:10]
 	}
 	g.w(fmt.Sprintf("h(%d,%s);", g.nextSite(), strings.Join(args, ",")))
 }
@@ -233,7 +243,38 @@ func (g *scopeGen) argsFor() string {
 
 func (g *scopeGen) child(depth int) {
 	r := g.r
-	switch r.Intn(12) {
+	k := r.Intn(13)
+	if k == 12 && g.keep {
+		k = 11 // guard js-keepvarnames-else-unscoped (open finding): with KeepVarNames the dissolved else block's names clash unrenamed
+	}
+	switch k {
+	case 12:
+		// try/finally (or catch) whose handler holds an if that leaves and an else block with lexical declarations:
+		// the minifier dissolves the else block, its declarations move into the enclosing block scope
+		g.push(true)
+		g.w("(function(){")
+		g.declsIn(false)
+		g.w("try{")
+		g.observe()
+		if r.Bool() {
+			g.w("}finally{")
+		} else {
+			g.w("throw 1}catch{")
+		}
+		g.push(false)
+		g.w("if(Q.length<0){h(" + fmt.Sprint(g.nextSite()) + ");return}else{") // never taken (free identifiers are mocks, so no typeof test here)
+		g.push(false)
+		g.declsIn(true)
+		g.observe()
+		g.w("Q.push(()=>{")
+		g.observe()
+		g.w("});}")
+		g.pop()
+		g.observe()
+		g.w("}")
+		g.pop()
+		g.w("})();")
+		g.pop()
 	case 0, 1:
 		fn := fmt.Sprintf("fn%d", g.nextSite())
 		g.push(true)
